@@ -15,10 +15,11 @@ Section Sound.
     stores_param dep p e = true -> defaults_deprecated dep env ->
     eval V is_sentinel constv env e = env p.
   Proof.
-    induction e as [q|c|old e IH]; cbn; intros H D.
+    induction e as [q|c|old e IH|old]; cbn; intros H D.
     - apply String.eqb_eq in H. subst. reflexivity.
     - discriminate.
     - apply andb_true_iff in H as [H1 H2]. rewrite (D old H1). apply IH; auto.
+    - discriminate.
   Qed.
 
   Lemma In_nondeprecated c p :
@@ -52,8 +53,18 @@ Section Sound.
       get_param V is_sentinel constv c env new = Some (env old).
   Proof.
     unfold alias_ok. intros H env Hs. apply andb_true_iff in H as [H _]. apply andb_true_iff in H as [_ H].
-    unfold get_param. destruct (lookup new (cstores c)) as [[|?|o [n| |]]|]; try discriminate.
+    unfold get_param. destruct (lookup new (cstores c)) as [[|?|o [n| | |]|]|]; try discriminate.
     cbn. rewrite andb_true_iff in H. destruct H as [Ho _]. apply String.eqb_eq in Ho. subst o.
     rewrite Hs. reflexivity.
+  Qed.
+  (* a deprecated parameter that was not used (it still equals the sentinel) is returned by get_params as the
+     identical object: clone, which re-runs the constructor on get_params, passes its identity check whatever object the sentinel is *)
+  Theorem sentinel_kept_sound c : sentinel_kept c = true ->
+    forall env p, In p (cdeprecated c) -> is_sentinel (env p) = true ->
+      get_param V is_sentinel constv c env p = Some (env p).
+  Proof.
+    intros H env p Hp Hs. unfold sentinel_kept in H. rewrite forallb_forall in H. specialize (H p Hp).
+    unfold get_param. destruct (lookup p (cstores c)) as [[| | |q]|]; try discriminate.
+    apply String.eqb_eq in H. subst q. cbn. rewrite Hs. reflexivity.
   Qed.
 End Sound.
